@@ -13,9 +13,9 @@ def queries():
     qs = []
     for n in range(0, 9):
         for lb in (0, 4, 8):
-            quick = (lb == 0 and n in (0, 3)) or (lb == 4 and n == 4)    # 8 min each; the other lengths / widths are in the thorough tier
+            quick = (lb == 0 and n == 0)    # non-empty messages cost 4-8 min per solver run (256-entry tables): thorough tier; the strict-decode queries on arbitrary 0..2 character input stay quick
             qs.append(Q('b64_n%d_lb%d' % (n, lb), 'h_base64', 'base64: encode == RFC 4648, decode(encode(m)) == m; message length %d, line_break %d, all byte values' % (n, lb),
-                        ['N=%d' % n, 'LB=%d' % lb], ['base64.cpp'], quick=quick, weight=n))
+                        ['N=%d' % n, 'LB=%d' % lb], ['base64.cpp'], quick=quick, weight=n, cap=32 if n <= 4 else None, witness=not (quick and n >= 3)))   # up to 4 bytes the encoded text (<= 10 characters) stays inside the small-string buffer: 32-byte capped blocks (asserted); the two longer quick queries run without their vacuity twin (4 more minutes each; the twin of b64_n0_lb0 reaches the same REACH point of the same harness)
     for n in range(0, 6):
         qs.append(Q('b64strict_n%d' % n, 'h_base64_strict', 'strict/non-strict base64_decode on arbitrary input of length %d, all byte values' % n, ['N=%d' % n], ['base64.cpp'], quick=n <= 2, weight=n))
     for n in range(0, 7):
@@ -32,7 +32,7 @@ def queries():
         qs.append(Q('quoted_p%d' % parts, 'h_quoted', 'split_quoted(join_quoted(v)) == v; %d fields of length 0..2 over {space, quote, backslash, newline, tab, a, n}' % parts,
                     ['NPARTS=%d' % parts, 'M=2'], ['join_quoted.cpp', 'split_quoted.cpp'], quick=False, weight=parts * 4 + 20, timeout=3600 if parts <= 1 else 14400, extra_ll2c=['--model-string-vector-growth', '4']))
     for n, m in ((0, 0), (1, 1), (2, 1), (3, 1), (3, 2), (4, 2), (4, 3)):
-        quick = (n, m) in ((0, 0), (2, 1), (3, 2)); quick_a = (n, m) in ((0, 0), (1, 1))   # helpers A with 2+ characters: 9-12 M variables, 3-6 min per solver run -> thorough tier
+        quick = (n, m) in ((0, 0), (2, 1), (3, 2)); quick_a = (n, m) in ((0, 0),)   # helpers A with 2+ characters: 9-12 M variables, 3-6 min per solver run -> thorough tier
         qs.append(Q('helpersA_n%d_m%d' % (n, m), 'h_helpers_a', 'replace_first/all, trim family, erase_all, pad vs definitional loops; string length %d, needle/drop-set length %d, replacement length 0..2' % (n, m),
                     ['N=%d' % n, 'M=%d' % m], ['replace.cpp', 'trim.cpp', 'erase_all.cpp', 'pad.cpp'], quick=quick_a, weight=n * 3, cap=32))   # strings stay below 16 bytes (SSO): a 32-byte cap (asserted) keeps the capped blocks small
         qs.append(Q('helpersB_n%d_m%d' % (n, m), 'h_helpers_b', 'starts/ends_with(_icase), contains, to_lower/upper, compare/equal_icase, levenshtein(_icase) vs definitions; lengths %d and %d over {a,A,b,Z,[,0xE4}' % (n, m),
